@@ -25,7 +25,9 @@ import (
 
 func c15hammer(env *core.Env, cs c15case, idx int, res *core.CaseResult) {
 	r := rand.New(rand.NewSource(env.Seed*23_000_009 + int64(idx)))
-	switch cs.Rep % 4 {
+	switch cs.Rep % 5 {
+	case 4:
+		c15hammerGrowObserver(r, cs, res)
 	case 0:
 		c15hammerFile(r, cs, res)
 	case 1:
@@ -35,6 +37,101 @@ func c15hammer(env *core.Env, cs c15case, idx int, res *core.CaseResult) {
 	default:
 		c15hammerCrossCopy(r, cs, res)
 	}
+}
+
+// c15hammerGrowObserver: one goroutine only ever appends to a file; observers look at its size twice in a row through
+// different routes (their own handle's Stat, the handle's reads, Stat by name, a fresh ReadFile). The file only grows, so
+// a later look can never show less than an earlier one.
+func c15hammerGrowObserver(r *rand.Rand, cs c15case, res *core.CaseResult) {
+	m, _ := mem.NewFS()
+	_ = hackpadfs.WriteFullFile(m, "log", []byte("start"), 0o644)
+	appends := 1500 + r.Intn(1500)
+	chunk := []int{1, 64, 700}[r.Intn(3)]
+	observers := 2 + r.Intn(3)
+	var stop int32
+	var looks, backwards int64
+	var first atomic.Value
+	var wg sync.WaitGroup
+	body := func() {
+		wg.Add(1)
+		go func() {
+			defer wg.Done()
+			defer atomic.StoreInt32(&stop, 1)
+			f, err := hackpadfs.OpenFile(m, "log", os.O_WRONLY|os.O_APPEND, 0)
+			if err != nil {
+				first.Store("setup: " + err.Error())
+				return
+			}
+			defer func() { _ = f.Close() }()
+			buf := []byte(strings.Repeat("+", chunk))
+			for i := 0; i < appends; i++ {
+				if p := core.Recover(func() { _, _ = hackpadfs.WriteFile(f, buf) }); p != "" {
+					first.Store("append panicked: " + p)
+					return
+				}
+			}
+		}()
+		for o := 0; o < observers; o++ {
+			wg.Add(1)
+			go func(o int) {
+				defer wg.Done()
+				h, err := m.Open("log")
+				if err != nil {
+					return
+				}
+				defer func() { _ = h.Close() }()
+				// four ways of learning the size; each look uses two of them, one after the other
+				sizeVia := []func() (int64, bool){
+					func() (int64, bool) { i, err := h.Stat(); return sizeOf(i, err) },
+					func() (int64, bool) { i, err := hackpadfs.Stat(m, "log"); return sizeOf(i, err) },
+					func() (int64, bool) { b, err := hackpadfs.ReadFile(m, "log"); return int64(len(b)), err == nil },
+					func() (int64, bool) {
+						n, err := hackpadfs.SeekFile(h, 0, io.SeekEnd)
+						return n, err == nil
+					},
+				}
+				names := []string{"handle Stat", "Stat by name", "ReadFile", "Seek to end"}
+				for i := 0; atomic.LoadInt32(&stop) == 0; i++ {
+					a, b := (i+o)%4, (i/4+o+1)%4
+					s1, ok1 := sizeVia[a]()
+					s2, ok2 := sizeVia[b]()
+					atomic.AddInt64(&looks, 1)
+					if ok1 && ok2 && s2 < s1 {
+						if atomic.AddInt64(&backwards, 1) == 1 {
+							first.Store(fmt.Sprintf("%s showed %d bytes, then %s showed %d", names[a], s1, names[b], s2))
+						}
+					}
+				}
+			}(o)
+		}
+		wg.Wait()
+	}
+	hung, confirmed := withWatchdog(body)
+	atomic.StoreInt32(&stop, 1)
+	wit := map[string]any{"case": cs, "appends": appends, "chunk": chunk, "observers": observers}
+	switch {
+	case hung && confirmed:
+		res.Violate("C15|hammer-grow|deadlock", "appender/observers stopped making progress; the goroutine dump shows them parked on locks", wit)
+		return
+	case hung:
+		res.Inconclusive = "hammer program did not finish, no blocked-state witness"
+		return
+	}
+	if n := atomic.LoadInt64(&backwards); n > 0 {
+		res.Violate("C15|hammer-grow|size-went-backwards", fmt.Sprintf("a file that is only ever appended to was seen shrinking in %d of %d looks: %v", n, atomic.LoadInt64(&looks), first.Load()), wit)
+	} else if v := first.Load(); v != nil {
+		res.Violate("C15|hammer-grow|appender-failed", v.(string), wit)
+	}
+	res.Nontrivial = true
+	res.Count("hammer_grow_programs", 1)
+	res.Count("hammer_ops", appends+int(atomic.LoadInt64(&looks)))
+}
+
+func sizeOf(info hackpadfs.FileInfo, err error) (int64, bool) {
+	if err != nil || info == nil {
+		return 0, false
+	}
+	return info.Size(), true
 }
 
 // c15hammerRenameObserver: a regular file is renamed along a chain f0 -> f1 -> f2 ... (each rename is one store
